@@ -2369,11 +2369,27 @@ func (a *Agent) TaskDispatch(RequestID uint32, CommandID uint32, Parser *parser.
 				WorkingHours int32
 			)
 
-			a.Encryption.AESKey = Parser.ParseAtLeastBytes(32)
-			a.Encryption.AESIv = Parser.ParseAtLeastBytes(16)
+			var (
+				AESKey = Parser.ParseAtLeastBytes(32)
+				AESIv  = Parser.ParseAtLeastBytes(16)
+			)
 
 			if Parser.CanIRead([]parser.ReadType{parser.ReadInt32, parser.ReadBytes, parser.ReadBytes, parser.ReadBytes, parser.ReadBytes, parser.ReadBytes, parser.ReadInt32, parser.ReadInt32, parser.ReadInt32, parser.ReadInt32, parser.ReadInt32, parser.ReadInt32, parser.ReadInt32, parser.ReadInt32, parser.ReadInt32, parser.ReadInt32, parser.ReadInt32, parser.ReadInt32, parser.ReadInt64, parser.ReadInt32}) {
 				DemonID = Parser.ParseInt32()
+
+				/* the identity and the keys of a session only change through a complete
+				 * checkin package of that very agent */
+				if DemonID != AgentID {
+					logger.Debug(fmt.Sprintf("Agent: %x, Command: COMMAND_CHECKIN, agent id mismatch: %x", AgentID, DemonID))
+					Message["Type"] = "Error"
+					Message["Message"] = "Received checkin request with a mismatching agent id"
+					teamserver.AgentConsole(a.NameID, HAVOC_CONSOLE_MESSAGE, Message)
+					break
+				}
+
+				a.Encryption.AESKey = AESKey
+				a.Encryption.AESIv = AESIv
+
 				Hostname = Parser.ParseString()
 				Username = Parser.ParseString()
 				DomainName = Parser.ParseString()
@@ -2394,7 +2410,6 @@ func (a *Agent) TaskDispatch(RequestID uint32, CommandID uint32, Parser *parser.
 
 				a.Active = true
 
-				a.NameID = fmt.Sprintf("%08x", DemonID)
 				a.Info.FirstCallIn = a.Info.FirstCallIn
 				a.Info.LastCallIn = a.Info.LastCallIn
 				a.Info.Hostname = Hostname
